@@ -19,9 +19,31 @@ package ast
 // A regular (string) label is printed as a bare identifier only if that is safe:
 // a name starting with '#' or '_' would be read back as a definition or a hidden
 // field, so it must be quoted; so must every name that is not a valid identifier.
-//@ func IsValidIdent
-//@   assumed A-int: the identifier grammar (letters, digits, _ and $, not starting with a digit); its loop ranges over runes, outside the subset
+//@ func strings.CutPrefix
+//@   assumed A-ext strings.CutPrefix
 //@   pure
+//@   ensures found == (len(s) >= len(prefix) && forall k int :: 0 <= k && k < len(prefix) ==> s[k] == prefix[k])
+//@   ensures found ==> same(after, s[len(prefix):])
+//@   ensures !found ==> same(after, s)
+//@ func isLetter
+//@   pure
+//@   ensures ch < 128 ==> result == (('a' <= ch && ch <= 'z') || ('A' <= ch && ch <= 'Z'))
+//@ func isDigit
+//@   pure
+//@   ensures ch < 128 ==> result == ('0' <= ch && ch <= '9')
+// an ASCII byte that may occur in an identifier
+//@ spec func identByte(c byte) bool { ('a' <= c && c <= 'z') || ('A' <= c && c <= 'Z') || ('0' <= c && c <= '9') || c == '_' || c == '$' }
+// (P) C07: a name accepted as an identifier contains no ASCII character other
+// than letters, digits, '_' and '$' — apart from one leading '_' and/or '#'
+// sigil — so that printing it bare cannot produce an operator, a quote, white
+// space or a separator; it is not empty; and after the sigils it does not start
+// with a digit unless a lone '_' precedes it.
+//@ func IsValidIdent
+//@   pure
+//@   loop 0 invariant 0 <= iter(0) && iter(0) <= len(ident) && forall k int :: 0 <= k && k < iter(0) && ident[k] < 128 ==> identByte(ident[k])
+//@   ensures [nonempty] result ==> len(ident) > 0
+//@   ensures [plain] result && ident[0] != '_' && ident[0] != '#' ==> forall k int :: 0 <= k && k < len(ident) && ident[k] < 128 ==> identByte(ident[k])
+//@   ensures [nodigit] result && len(ident) > 0 ==> !('0' <= ident[0] && ident[0] <= '9')
 //@ func (literal.Form).Quote
 //@   assumed A-int: quoting (its escaping functions are verified under cue/literal)
 //@ func StringLabelNeedsQuoting
